@@ -106,6 +106,10 @@ type WOp struct {
 	SrcFaults []RFault `json:"src_faults,omitempty"`
 	Opts      *WOpts   `json:"opts,omitempty"` // apply
 	Sink      int      `json:"sink,omitempty"` // reset: index of the sink to switch to
+	// Hist: a write of the first N input bytes that does not advance the input
+	// position: earlier history of the Writer object (C14), abandoned or
+	// closed before the Reset that starts the judged stream.
+	Hist bool `json:"hist,omitempty"`
 }
 
 // WFault is a fault on a sink.
